@@ -1,3 +1,5 @@
+import RSV.Props.C17invert
+import RSV.Props.C17buildMatrix
 import RSV.Props.C17funcs
 import RSV.Props.C17matrix
 import RSV.Props.C17
